@@ -159,6 +159,20 @@ func (d *Decoder) decodeValue(value reflect.Value) {
 		return
 	}
 	if m, ok := value.Interface().(Unmarshaler); ok {
+		// UnmarshalTL of an object reads only its body (like in decodeRegisteredObject), so its crc is
+		// checked here. bare types (Int128, Int256) have no crc
+		if o, isObject := value.Interface().(Object); isObject {
+			crcCode := d.PopCRC()
+			if d.err != nil {
+				d.err = errors.Wrap(d.err, "read crc")
+				return
+			}
+			if crcCode != o.CRC() {
+				d.err = fmt.Errorf("invalid crc code: %#v, want: %#v", crcCode, o.CRC())
+				return
+			}
+		}
+
 		err := m.UnmarshalTL(d)
 		if err != nil {
 			d.err = err
